@@ -598,6 +598,44 @@ def n1_flag(ctx, rep):
     ctx._notify_flag = (body, fl)
 
 
+def n2_flag_edges(ctx):
+    """(true edges, false edges) of every test of the chain's notify flag in the event graph"""
+    P = _pipe(ctx)
+    G = P.G
+    red = P.ev.get("REDUCE", [])
+    if len(red) != 1:
+        return [], []
+    chain_fn = red[0][1].body
+    Ic = getattr(P, "_I_chain", None)
+    if Ic is None:
+        Ic = Interp(ctx.prog, opaque=lambda b_: b_.path == chain_fn.path)
+        P._I_chain = Ic
+    te, fe = [], []
+    for k, n in G.nodes.items():
+        t = n.body.blocks[n.bb]["term"]
+        if t["k"] != "switch" or t["discr"]["k"] == "const":
+            continue
+        bp = ctx.prog.bp(n.body)
+        raw = bp.operand_term(t["discr"], n.bb, "term")
+        neg = False
+        if raw[0] == "unop" and raw[1] == "Not":
+            raw = raw[2]
+            neg = True
+        ex = Ic.expand(raw)
+        if not any(st[0] == "call" and ctx.prog.by_key.get(st[2]) is not None and ctx.prog.by_key[st[2]].path == chain_fn.path for st in subterms(ex)):
+            continue
+        tt = P.I.in_context(k[0], n.body, raw)
+        if not (tt[0] == "phi" and set(tt[1]) == {("const", "true", "bool"), ("const", "false", "bool")}):
+            continue
+        zero = [b for v, b in t["targets"] if str(v) == "0"]
+        nonzero = t["otherwise"]
+        f_ = (k[0], n.body.path, nonzero if neg else (zero[0] if zero else nonzero))
+        t_ = (k[0], n.body.path, (zero[0] if zero else nonzero) if neg else nonzero)
+        fe.append((k, f_))
+        te.append((k, t_))
+    return te, fe
+
+
 def n2_guard(ctx, rep):
     """the notify phase runs iff the chain's flag is true"""
     R = "N2"
